@@ -188,7 +188,15 @@ pub fn found_json(part: &str, alphabet: &[Op], f: &Found) -> Value {
 
 pub fn run_part<S: System>(ctx: &Ctx, rep: &mut Report, part: &Part<S>) -> Vec<(Cfg, BfsOut)> {
     let t0 = Instant::now();
-    let deadline = t0 + Duration::from_secs_f64(part.seconds);
+    // A part's own budget, capped per tier so that a whole check stays within minutes
+    // (quick) / a quarter of an hour or so (thorough) even on a loaded machine; a part that
+    // hits the cap reports the depth it completed and `exhaustive:false`.
+    // AVTMC_PART_SECONDS lifts the cap for a deliberately long run.
+    let cap: f64 = std::env::var("AVTMC_PART_SECONDS").ok().and_then(|s| s.parse().ok()).unwrap_or(match ctx.tier {
+        Tier::Quick => 60.0,
+        Tier::Thorough => 300.0,
+    });
+    let deadline = t0 + Duration::from_secs_f64(part.seconds.min(cap));
     let mut total = BfsOut::default();
     let mut per_cfg = vec![];
     let mut outs = vec![];
